@@ -1,15 +1,15 @@
-\* C05 generator (two): intended design (Permissive = FALSE), inputs + expected log
+\* C05 generator (two; used with -simulate: seeded random walks): intended design (Permissive = FALSE), inputs + expected log
 SPECIFICATION GenSpec
 CONSTANTS
   MaxConns = 2
-  MaxCmds = 2
+  MaxCmds = 3
   PolicyTabs = {1, 2}
   AuthzTabs = {0, 1, 2}
-  InitAuthz = {0, 1}
+  InitAuthz = {0, 1, 2}
   Users = {"alice", "bob"}
   Permissive = FALSE
   Bug = {}
   GenMode = "two"
-  MaxChanges = 1
+  MaxChanges = 2
 INVARIANT EmitTrace
 CHECK_DEADLOCK FALSE
